@@ -59,6 +59,14 @@ def api_job(job):
     date, structs, seed, nperm, work, tid = job
     rnd = random.Random(seed)
     P = popgen.compose(structs, date, rnd, sparse=rnd.random() < 0.5)
+    if tid % 2 == 1:
+        # survey-style household numbers (far larger than the number of rows): together with the permutations below the
+        # members of a household are not adjacent
+        relabel = {}
+        for p in P:
+            relabel.setdefault(p["hh_id"], 4711 + 1309 * len(relabel))
+        for p in P:
+            p["hh_id"] = relabel[p["hh_id"]]
     df = gs.build_population(P, date)
     n = len(df)
     pool = enc.Pool()
